@@ -1227,7 +1227,8 @@ Proof.
     assert (Hs3 : lang_step (v_st v) (v_st v3)) by (eapply lang_step_then; eassumption).
     destruct s3; try (split; assumption).
     destruct b4; [split; assumption|split; [reflexivity|split; assumption]]. }
-  destruct (parse_args op b1) as [[i b2]|e|n]; [exact Hmain|exact Hmain|exact P0].
+  destruct (parse_args op b1) as [[i b2]|e|n]; [| |exact P0];
+    (destruct (step_exec rs sep L op b1 (run_prelude v)) as [[v1 b2'] s]; exact Hmain).
 Qed.
 
 (* ---- the invariant: the context language follows the session language ---------------- *)
@@ -1344,4 +1345,278 @@ Lemma run_no_render rs sep fuel lang b v :
 Proof.
   destruct (run_events_lemma rs sep fuel lang b v) as [new [E F]]. exists new. split; [exact E|].
   eapply Forall_impl; [|exact F]. intros e He. destruct e; cbn in *; auto.
+Qed.
+
+(* ================================================================================== *)
+(* Part 6 — C05 at run level: the resume after HALT empties the map                   *)
+(* ================================================================================== *)
+
+Lemma upd_menu_map f pg : p_map (upd_menu f pg) = p_map pg /\ p_sink (upd_menu f pg) = p_sink pg.
+Proof. unfold upd_menu. destruct (p_menu pg); auto. Qed.
+
+Lemma prelude_resume_clears v :
+  getf (v_st v) FLAG_WAIT = true -> p_map (v_pg (run_prelude v)) = [] /\ p_sink (v_pg (run_prelude v)) = None.
+Proof.
+  intros H. unfold run_prelude. rewrite getf_resetf_other by discriminate. rewrite H. cbn [v_pg vset_pg].
+  destruct (upd_menu_map menu_reset (page_reset (page_with_error (v_pg v) None))) as [-> ->]. auto.
+Qed.
+
+Lemma prelude_no_resume v : getf (v_st v) FLAG_WAIT = false -> v_pg (run_prelude v) = v_pg v.
+Proof. intros H. unfold run_prelude. rewrite getf_resetf_other by discriminate. rewrite H. reflexivity. Qed.
+
+(* in the loop: an instruction that runs right after a HALT (WAIT set) starts from an empty map *)
+Lemma step_resume_lemma rs sep lang b v op b1 :
+  getf (v_st v) FLAG_TERMINATE = false -> getf (v_st v) FLAG_WAIT = true -> op_split b = Ok (op, b1) ->
+  exists v0, p_map (v_pg v0) = [] /\ v_ca v0 = v_ca v /\
+    run_step rs sep lang b v =
+    match parse_args op b1 with
+    | Panic n => Done (v0, b1, SPanic n)
+    | _ =>
+      let '(v1, b2, s) := step_exec rs sep (eff_lang lang (v_st v)) op b1 v0 in
+      if op =? op_HALT then Done (v1, b2, s) else
+      let '(v2, b3, s2) := err_check v1 b2 s in
+      match s2 with
+      | SOk =>
+        match b3 with
+        | [] =>
+          let '(v3, b4, s3) := dead_check v2 in
+          match s3 with
+          | SOk => match b4 with [] => Done (v3, [], SOk) | _ => Next (eff_lang lang (v_st v)) b4 v3 end
+          | _ => Done (v3, b4, s3)
+          end
+        | _ => Next (eff_lang lang (v_st v)) b3 v2
+        end
+      | _ => Done (v2, b3, s2)
+      end
+    end.
+Proof.
+  intros Ht Hw Ho. exists (run_prelude v). split; [apply (prelude_resume_clears v Hw)|]. split; [reflexivity|].
+  unfold run_step. rewrite Ht, Ho. reflexivity.
+Qed.
+
+(* one instruction and the map: cleared, kept, or extended by the one symbol MAP/RELOAD names *)
+Lemma exec_instr_map_lemma rs sep lang i b v v' b' s :
+  exec_instr rs sep lang i b v = (v', b', s) ->
+  p_map (v_pg v') = []
+  \/ p_map (v_pg v') = p_map (v_pg v)
+  \/ exists k val, (i = IMap k \/ i = IReload k) /\ cache_get (v_ca v') k = Ok val
+                   /\ p_map (v_pg v') = aset k val (p_map (v_pg v)).
+Proof.
+  destruct i as [|sym sig mode|sig mode|sym sz|sym|sym|sym| |dest sel| |title sel|title sel|title sel]; cbn [exec_instr]; intros H;
+    try (injection H as <- _ _; right; left; cbn [v_pg vset_pg vset_st]; first [reflexivity | apply upd_menu_map]).
+  - right; left. rewrite (run_catch_page _ _ _ _ _ _ _ _ _ H). reflexivity.
+  - destruct (run_croak_page _ _ _ _ _ _ _ _ H) as [E|E]; rewrite E; [right; left; reflexivity|left; reflexivity].
+  - right; left. unfold run_load in H. destruct (cache_get (v_ca v) sym); try (injection H as <- _ _; reflexivity).
+    destruct (refresh rs lang sym v) as [[v1 content] s1] eqn:Hr. destruct (refresh_frame _ _ _ _ _ _ _ Hr) as [_ Hpg].
+    destruct s1; try (injection H as <- _ _; rewrite Hpg; reflexivity).
+    destruct (cache_add _ _ _ _) as [ca'|e2|p2]; [injection H as <- _ _; cbn [v_pg vset_ca]; rewrite Hpg; reflexivity| |injection H as <- _ _; rewrite Hpg; reflexivity].
+    destruct e2; injection H as <- _ _; rewrite Hpg; reflexivity.
+  - unfold run_reload in H.
+    destruct (refresh rs lang sym v) as [[v1 content] s1] eqn:Hr. destruct (refresh_frame _ _ _ _ _ _ _ Hr) as [_ Hpg].
+    destruct s1; try (injection H as <- _ _; right; left; rewrite Hpg; reflexivity).
+    destruct (cache_update_raw _ _ _) as [ca' oe]. cbn [v_ca v_pg vset_ca] in H.
+    destruct (page_map ca' (v_pg v1) sym) as [pg'|e|p] eqn:Hm; injection H as <- _ _; cbn [v_pg v_ca vset_pg vset_ca];
+      try (right; left; rewrite Hpg; reflexivity).
+    right; right. destruct (page_map_ok _ _ _ _ Hm) as [val [l [Hg [_ [Hp _]]]]]. exists sym, val.
+    split; [right; reflexivity|]. split; [exact Hg|]. rewrite Hp, Hpg. reflexivity.
+  - destruct (run_map_lemma _ _ _ _ _ _ H) as [_ [_ [Hca [_ [_ [Hok Hne]]]]]].
+    destruct s; try (right; left; rewrite Hne by discriminate; reflexivity).
+    right; right. destruct (Hok eq_refl) as [val [Hg Hp]]. exists sym, val. split; [left; reflexivity|]. rewrite Hca. auto.
+  - destruct (run_move_page _ _ _ _ _ _ _ _ H) as [Hok Hne].
+    destruct s; try (right; left; rewrite Hne by discriminate; reflexivity). left. apply (Hok eq_refl).
+  - destruct (run_incmp_page _ _ _ _ _ _ _ _ _ H) as [[E _]|[E _]]; rewrite E; [right; left; reflexivity|left; reflexivity].
+Qed.
+
+(* ================================================================================== *)
+(* Part 7 — C18 at engine level                                                       *)
+(* ================================================================================== *)
+
+(* ---- the renderer sees the resource only through the two lookups it is handed --------- *)
+Lemma menu_loop_ext f g sep : (forall t, f t = g t) ->
+  forall items r, menu_loop f sep items r = menu_loop g sep items r.
+Proof.
+  intros E. induction items as [|[sel title] rest IH]; intros r; cbn [menu_loop]; [reflexivity|].
+  rewrite E. destruct (g title); [apply IH|reflexivity|reflexivity].
+Qed.
+
+Lemma menu_render_st_ext f g m idx : (forall t, f t = g t) -> menu_render_st f m idx = menu_render_st g m idx.
+Proof.
+  intros E. unfold menu_render_st. destruct (menu_apply_page m idx) as [m1|e|n]; try reflexivity.
+  destruct (m_has_rs m1); [|reflexivity]. rewrite (menu_loop_ext f g _ E). reflexivity.
+Qed.
+
+Lemma render_template_ext f g pg sym vals idx : (forall t, f t = g t) ->
+  render_template f pg sym vals idx = render_template g pg sym vals idx.
+Proof. intros E. unfold render_template. rewrite E. reflexivity. Qed.
+
+Lemma page_render_inner_ext f g f' g' pg sym vals idx :
+  (forall t, f t = f' t) -> (forall t, g t = g' t) ->
+  page_render_inner f g pg sym vals idx = page_render_inner f' g' pg sym vals idx.
+Proof.
+  intros E1 E2. unfold page_render_inner. rewrite (render_template_ext f f' _ _ _ _ E1).
+  destruct (render_template f' pg sym vals idx); try reflexivity.
+  destruct (p_menu pg) as [m|]; [|reflexivity]. rewrite (menu_render_st_ext g g' _ _ E2). reflexivity.
+Qed.
+
+Lemma page_prepare_ext c f g f' g' pg sym idx :
+  (forall t, f t = f' t) -> (forall t, g t = g' t) ->
+  page_prepare c f g pg sym idx = page_prepare c f' g' pg sym idx.
+Proof.
+  intros E1 E2. unfold page_prepare. destruct (p_sizer pg); [|reflexivity].
+  destruct (page_split c (p_map pg)) as [[[nsv0 sink0] svs0]|e|n]; try reflexivity.
+  assert (Hs : forall m, menu_render_st g (menu_with_pages (menu_with_dispose m)) 0
+                       = menu_render_st g' (menu_with_pages (menu_with_dispose m)) 0)
+    by (intros m; apply menu_render_st_ext; exact E2).
+  destruct (p_menu pg) as [m|].
+  - destruct (m_sink m).
+    + destruct (negb _); [reflexivity|]. rewrite Hs.
+      destruct (menu_render_st g' _ 0) as [[mstr|e|n] m2]; try reflexivity.
+      destruct (prep_write _ _ _ _ _) as [nsv1 pg3].
+      rewrite (page_render_inner_ext f g f' g' _ _ _ _ E1 E2). reflexivity.
+    + rewrite (page_render_inner_ext f g f' g' _ _ _ _ E1 E2). reflexivity.
+  - rewrite (page_render_inner_ext f g f' g' _ _ _ _ E1 E2). reflexivity.
+Qed.
+
+Lemma page_render_ext c f g f' g' pg sym idx :
+  (forall t, f t = f' t) -> (forall t, g t = g' t) ->
+  page_render c f g pg sym idx = page_render c f' g' pg sym idx.
+Proof.
+  intros E1 E2. unfold page_render. rewrite (page_prepare_ext c f g f' g' _ _ _ E1 E2).
+  destruct (page_prepare c f' g' pg sym idx) as [[vals|e|n] pg']; try reflexivity.
+  apply page_render_inner_ext; assumption.
+Qed.
+
+(* ---- the run loop sees the resource only through code, functions and their error text -- *)
+Definition rs_same_code (rs rs' : rsrc) : Prop :=
+  (forall s, rs_code rs s = rs_code rs' s) /\ (forall s, rs_func rs s = rs_func rs' s)
+  /\ (forall s, rs_nofunc rs s = rs_nofunc rs' s) /\ rs_observed rs = rs_observed rs'.
+
+Lemma refresh_ext rs rs' lang key v : rs_same_code rs rs' -> refresh rs lang key v = refresh rs' lang key v.
+Proof. intros [_ [Ef [En _]]]. unfold refresh. rewrite Ef, En. reflexivity. Qed.
+
+Lemma fetch_code_ext rs rs' sym v : rs_same_code rs rs' -> fetch_code rs sym v = fetch_code rs' sym v.
+Proof. intros [Ec [_ [_ Eo]]]. unfold fetch_code. rewrite Ec, Eo. reflexivity. Qed.
+
+Lemma exec_instr_ext rs rs' sep lang i b v : rs_same_code rs rs' ->
+  exec_instr rs sep lang i b v = exec_instr rs' sep lang i b v.
+Proof.
+  intros E. destruct i; cbn [exec_instr]; try reflexivity.
+  - unfold run_catch. destruct (match_flag _ _ _) as [[|]| |]; try reflexivity.
+    destruct (apply_target _ _ _) as [[[st' ca'] nsym] s1]. destruct s1; try reflexivity.
+    rewrite (fetch_code_ext rs rs' _ _ E). reflexivity.
+  - unfold run_load. rewrite (refresh_ext rs rs' _ _ _ E). reflexivity.
+  - unfold run_reload. rewrite (refresh_ext rs rs' _ _ _ E). reflexivity.
+  - unfold run_move. destruct (apply_target _ _ _) as [[[st' ca'] nsym] s1]. destruct s1; try reflexivity.
+    rewrite (fetch_code_ext rs rs' _ _ E). reflexivity.
+  - unfold run_incmp. destruct (_ && _); [reflexivity|]. destruct (s_input _); [|reflexivity].
+    destruct (_ || _); [|reflexivity]. destruct (apply_target _ _ _) as [[[st' ca'] nsym] s1]. destruct s1; try reflexivity.
+    rewrite (fetch_code_ext rs rs' _ _ E). reflexivity.
+Qed.
+
+Lemma run_step_ext rs rs' sep lang b v : rs_same_code rs rs' -> run_step rs sep lang b v = run_step rs' sep lang b v.
+Proof.
+  intros E. unfold run_step. destruct (getf _ FLAG_TERMINATE); [reflexivity|]. cbv zeta.
+  destruct (op_split b) as [[op b1]|e|n]; try reflexivity.
+  assert (Hx : step_exec rs sep (eff_lang lang (v_st v)) op b1 (run_prelude v)
+             = step_exec rs' sep (eff_lang lang (v_st v)) op b1 (run_prelude v)).
+  { unfold step_exec. destruct (parse_args op b1) as [[i b2]|e|n]; try reflexivity. apply exec_instr_ext. exact E. }
+  rewrite Hx. reflexivity.
+Qed.
+
+Lemma run_ext rs rs' sep : rs_same_code rs rs' ->
+  forall fuel lang b v, run fuel rs sep lang b v = run fuel rs' sep lang b v.
+Proof.
+  intros E. induction fuel as [|fuel IH]; intros lang b v; [reflexivity|].
+  rewrite !run_S, (run_step_ext rs rs' _ _ _ _ E). destruct (run_step rs' sep lang b v); [reflexivity|apply IH].
+Qed.
+
+(* two resources that agree on everything but the entries of OTHER languages *)
+Definition rs_agree_on (lang : option bytes) (rs rs' : rsrc) : Prop :=
+  rs_same_code rs rs'
+  /\ (forall s, rs_tpl rs lang s = rs_tpl rs' lang s)
+  /\ (forall s, rs_menu rs lang s = rs_menu rs' lang s).
+
+Lemma vm_render_ext fuel rs rs' sep lang v : rs_agree_on lang rs rs' ->
+  vm_render fuel rs sep lang v = vm_render fuel rs' sep lang v.
+Proof.
+  intros [Ec [Et Em]]. unfold vm_render. destruct (negb _); [reflexivity|]. cbv zeta.
+  destruct (where_sym _) as [|x sym]; [reflexivity|].
+  rewrite (page_render_ext _ _ _ _ _ _ _ _ Et Em).
+  destruct (page_render _ (rs_tpl rs' lang) (rs_menu rs' lang) _ _ _) as [r pg'].
+  destruct r as [out|e|n]; try reflexivity. destruct e; try reflexivity.
+  rewrite (run_ext rs rs' sep Ec).
+  destruct (run fuel rs' sep lang move_catch_code _) as [[v1 b1] s]. destruct s; try reflexivity;
+    rewrite (page_render_ext _ _ _ _ _ _ _ _ Et Em); reflexivity.
+Qed.
+
+(* non-interference: Flush does not depend on what the resource holds for other languages *)
+Lemma eng_flush_noninterference fuel rs rs' c e :
+  rs_agree_on (s_lang (v_st (e_v e))) rs rs' -> eng_flush fuel rs c e = eng_flush fuel rs' c e.
+Proof.
+  intros E. unfold eng_flush. destruct (negb (e_execd e)); [reflexivity|]. cbv zeta.
+  rewrite (vm_render_ext _ _ _ _ _ _ E). reflexivity.
+Qed.
+
+(* for applications: tables that resolve every key the same way in the session's language *)
+Definition app_agree_on (lang : option bytes) (a a' : app) : Prop :=
+  a_code a = a_code a' /\ a_funcs a = a_funcs a'
+  /\ (forall k, lookup_lang (a_tpl a) k lang = lookup_lang (a_tpl a') k lang)
+  /\ (forall k, lookup_lang (a_menu a) k lang = lookup_lang (a_menu a') k lang).
+
+Lemma app_agree_rs lang a a' : app_agree_on lang a a' -> rs_agree_on lang (app_rsrc a) (app_rsrc a').
+Proof.
+  intros [Ec [Ef [Et Em]]]. unfold rs_agree_on, rs_same_code, app_rsrc. cbn [rs_code rs_func rs_nofunc rs_observed rs_tpl rs_menu].
+  rewrite Ec, Ef. repeat split; try reflexivity.
+  - intros s. rewrite Et. reflexivity.
+  - intros s. rewrite Em. reflexivity.
+Qed.
+
+(* ---- every render event of a Flush carries the session language at flush time ---------- *)
+Definition render_in (lang : option bytes) (e : ev) : Prop :=
+  match e with EvRender _ _ l => l = lang | _ => True end.
+
+Lemma not_render_in lang e : not_render e -> render_in lang e.
+Proof. destruct e; cbn; auto. intros []. Qed.
+
+Lemma vm_render_events fuel rs sep lang v :
+  exists new, v_log (fst (vm_render fuel rs sep lang v)) = new ++ v_log v /\ Forall (render_in lang) new.
+Proof.
+  unfold vm_render. destruct (negb _); [exists []; split; [reflexivity|constructor]|]. cbv zeta.
+  destruct (where_sym _) as [|x sym]; [exists []; split; [reflexivity|constructor]|].
+  destruct (page_render _ _ _ _ _ _) as [r pg'].
+  set (ev1 := EvRender (x :: sym) (s_idx (v_st (vset_st v (resetf (v_st v) FLAG_DIRTY)))) lang).
+  assert (H1 : exists new, ev1 :: v_log v = new ++ v_log v /\ Forall (render_in lang) new).
+  { exists [ev1]. split; [reflexivity|repeat constructor]. }
+  destruct r as [out|e|n]; try exact H1. destruct e; try exact H1.
+  match goal with |- context [run fuel rs sep lang move_catch_code ?V] => set (v2 := V) end.
+  destruct (run_no_render rs sep fuel lang move_catch_code v2) as [n2 [E2 F2]].
+  destruct (run fuel rs sep lang move_catch_code v2) as [[v3 b3] s3]. cbn [fst] in E2.
+  assert (H3 : exists new, v_log v3 = new ++ v_log v /\ Forall (render_in lang) new).
+  { exists (n2 ++ [ev1]). split; [rewrite E2; subst v2; cbn [v_log vset_pg vlog vset_st]; rewrite <- app_assoc; reflexivity|].
+    apply Forall_app. split; [eapply Forall_impl; [|exact F2]; intros; apply not_render_in; assumption|repeat constructor]. }
+  destruct s3; try exact H3;
+    destruct (page_render _ _ _ _ _ _) as [r1 pg1]; cbn [fst v_log vlog vset_pg];
+    destruct H3 as [n3 [E3 F3]]; eexists (_ :: n3); (split; [rewrite E3; reflexivity|constructor; [reflexivity|exact F3]]).
+Qed.
+
+Lemma eng_reset_inner_log v : v_log (fst (eng_reset_inner v)) = v_log v /\ v_w (fst (eng_reset_inner v)) = v_w v.
+Proof.
+  unfold eng_reset_inner. destruct (unwind _ _ _) as [[st ca] s]. destruct s; cbn; auto.
+Qed.
+
+Lemma eng_flush_events fuel rs c e :
+  exists new, v_log (e_v (fst (fst (eng_flush fuel rs c e)))) = new ++ v_log (e_v e)
+              /\ Forall (render_in (s_lang (v_st (e_v e)))) new.
+Proof.
+  unfold eng_flush. destruct (negb (e_execd e)); [exists []; split; [reflexivity|constructor]|]. cbv zeta.
+  destruct (vm_render_events fuel rs (c_sep c) (s_lang (v_st (e_v e))) (e_v e)) as [new [E F]].
+  destruct (vm_render _ _ _ _ _) as [v r]. cbn [fst] in E.
+  assert (H0 : exists new, v_log v = new ++ v_log (e_v e) /\ Forall (render_in (s_lang (v_st (e_v e)))) new) by eauto.
+  destruct r as [out|er|n|]; try exact H0; cbn [e_exit eset_v e_exiting e_v];
+    repeat match goal with
+    | |- context [if ?c then _ else _] => destruct c
+    | |- context [eng_reset_inner v] => let H := fresh in pose proof (proj1 (eng_reset_inner_log v)) as H; destruct (eng_reset_inner v) as [v' s']; cbn [fst] in H
+    | |- context [match e_exit e with _ => _ end] => destruct (e_exit e)
+    | |- context [match ?s with SOk => _ | _ => _ end] => destruct s
+    end; cbn [fst e_v]; try exact H0; try (rewrite H; exact H0).
 Qed.
